@@ -60,6 +60,11 @@ func (ssu *realStatefulSetStatusUpdater) UpdateStatefulSetStatus(
 			return nil
 		}
 		if updated, err := ssu.setLister.StatefulSets(set.Namespace).Get(set.Name); err == nil {
+			if updated.UID != set.UID {
+				// the set was deleted and re-created under the same name: the status computed
+				// for the old object must not be written onto the new one
+				return fmt.Errorf("StatefulSet %s/%s has been re-created (uid %v, was %v), dropping the stale status", set.Namespace, set.Name, updated.UID, set.UID)
+			}
 			// make a copy so we don't mutate the shared cache
 			set = updated.DeepCopy()
 		} else {
